@@ -15,6 +15,7 @@
 #include "momo/TreeSet.h"
 #include "momo/MemPool.h"
 #include "momo/SegmentedArray.h"
+#include "momo/stdish/vector.h"
 // compiled twice to keep each compilation short: -DC03_TIE_PART=1 (om/arr/hs/ts/crew) and =2 (dt/hmm)
 #if !defined(C03_TIE_PART) || C03_TIE_PART == 2
 #include "momo/HashMultiMap.h"
@@ -244,6 +245,72 @@ static void run_sa2(size_t n, long k)
 	printf("%s%s", thrown ? "exc" : "val", canon(true, true, true, true).c_str());
 }
 
+// two real pools with a free-block cache, driven by a script: a<p> Allocate on pool p, d<p>.<k> Deallocate the k-th block the
+// harness holds for pool p, m<p> pool p .MergeFrom(the other), x<p> DeallocateAll; the f-th buffer allocation fails.
+// Output per operation: the buffers taken from / returned to the memory manager (block level), after a merge the cached-block
+// count and the emptiness of the source's buffer list (private state); at the end every block is returned and the pools die
+template<size_t C, size_t CF> static void run_pc(const std::string& script, long f)
+{
+	typedef MemPool<MemPoolParams<C, CF>, kit::MM> Pool;
+	std::string out;
+	std::map<ull, ull> ren;
+	auto B = [&](ull x) { auto it = ren.find(x); if (it != ren.end()) return it->second; ull n = ren.size(); return ren[x] = n; };
+	size_t seen = 0;
+	auto drain = [&]() { kit::World& w = kit::W(); for (; seen < w.elog.size(); ++seen) { auto& e = w.elog[seen];
+		if (e.kind == 'A') out += " A" + std::to_string(B(e.b)); else if (e.kind == 'D') out += " D" + std::to_string(B(e.b)); else if (e.kind == 'F') out += " F"; } };
+	kit::W().elog_reset(); kit::W().elogging = true; kit::W().arm(f, -1, -1);
+	{
+		Pool pool[2] = { Pool(MemPoolParams<C, CF>(24), kit::MM(1)), Pool(MemPoolParams<C, CF>(24), kit::MM(1)) };
+		std::vector<void*> held[2];
+		std::istringstream is(script); std::string tok;
+		while (std::getline(is, tok, ','))
+		{
+			if (tok.empty()) continue;
+			int p = tok[1] - '0';
+			out += " |";
+			if (tok[0] == 'a') { try { held[p].push_back(pool[p].template Allocate<void>()); } catch (const std::exception&) {} }
+			else if (tok[0] == 'd') { size_t k = size_t(std::atoi(tok.c_str() + 3)); if (k < held[p].size()) { pool[p].Deallocate(held[p][k]); held[p].erase(held[p].begin() + k); } }
+			else if (tok[0] == 'm') { pool[p].MergeFrom(pool[1 - p]); for (void* b : held[1 - p]) held[p].push_back(b); held[1 - p].clear(); }
+			else if (tok[0] == 'x') { pool[p].DeallocateAll(); held[p].clear(); }
+			drain();
+			if (tok[0] == 'm') out += " [c" + std::to_string(pool[1 - p].mCachedCount) + "b" + (pool[1 - p].mFreeBufferHead == nullptr ? "0" : "1") + "]";
+		}
+		kit::W().disarm();
+		out += " |";
+		for (int p = 0; p < 2; ++p) { for (void* b : held[p]) pool[p].Deallocate(b); held[p].clear(); }
+		drain();
+	}
+	out += " |"; drain();
+	window_end();
+	printf("pc%s", out.c_str());
+}
+
+// stdish::vector move construction with an UNEQUAL allocator (element-wise migration), then both destructors; the k-th fallible
+// step fails.  Output: the multiset of (allocator id, alloc / dealloc) events and the numbers of moves, copies and destructions
+static void run_migv(size_t n, long k)
+{
+	typedef kit::ElemNtm E; typedef kit::StdAlloc<E> A; typedef stdish::vector<E, A> V;
+	bool thrown = false;
+	std::map<std::string, size_t> cnt;
+	{
+		V src{A(1)};
+		for (size_t i = 0; i < n; ++i) src.push_back(E(int64_t(100 + i)));
+		src.shrink_to_fit();
+		window_begin(k);
+		try { V dst(std::move(src), A(2)); kit::W().disarm(); }
+		catch (const std::exception&) { thrown = true; }
+		kit::W().disarm();
+	}	// ~src inside the window
+	window_end();
+	for (auto& e : kit::W().elog)
+	{
+		if (e.kind == 'A' || e.kind == 'D') ++cnt[std::string(1, e.kind) + std::to_string(e.a)];
+		else if (e.kind == 'M' || e.kind == 'X' || e.kind == 'C' || e.kind == 'F') ++cnt[std::string(1, e.kind)];
+	}
+	printf("%s", thrown ? "exc" : "val");
+	for (auto& c : cnt) printf(" %s:%zu", c.first.c_str(), c.second);
+}
+
 // HashSet growth: n insertions; prints for every insertion whether a new generation of buckets was created (probe), or
 // (flags given) the sequence of element event KINDS with the c-th element copy failing
 template<class E> static void run_grow(const std::string& flags, size_t n, long c, bool probe)
@@ -362,6 +429,31 @@ static void run_dt(size_t n, long c)
 	}
 	printf("%s%s", thrown ? "exc" : "val", canon(false, true, false).c_str());
 }
+// DataTable crew: n = NewRow (held by a Row object), a = Add(newest held row), e = Extract(first stored row), r = the newest held
+// Row object dies (its raw is pushed on the crew's free-raw stack).  After every operation the granularity the real code exposes
+// is printed: pool allocate count, length of the free-raw stack, number of stored rows
+static void run_dtc(const std::string& script)
+{
+	struct R1 { int id; };
+	typedef DataColumnList<DataColumnTraits<dtt::Row>, kit::MM> CL;
+	dtt::ColumnList cl{kit::MM(1)}; cl.Add(dtt::a, dtt::b);
+	dtt::Table t(std::move(cl));
+	std::vector<dtt::Table::Row> held;
+	std::string out;
+	for (char op : script)
+	{
+		if (op == 'n') held.push_back(t.NewRow());
+		else if (op == 'a') { if (!held.empty()) { t.Add(std::move(held.back())); held.pop_back(); } }
+		else if (op == 'e') { if (t.GetCount() > 0) held.push_back(t.Extract(0)); }
+		else if (op == 'r') { if (!held.empty()) held.pop_back(); }
+		size_t fr = 0;
+		for (void* raw = t.mCrew.GetFreeRaws().load(); raw != nullptr; raw = internal::MemCopyer::FromBuffer<void*>(raw)) ++fr;
+		out += " " + std::to_string(t.mRawMemPool.GetAllocateCount()) + "," + std::to_string(fr) + "," + std::to_string(t.GetCount());
+	}
+	held.clear();
+	printf("dtc%s", out.c_str());
+}
+
 // HashMultiMap(const HashMultiMap&) with n keys, key i having i % 3 + 1 values, the c-th element copy failing
 static void run_hmm(size_t n, long c)
 {
@@ -414,6 +506,12 @@ int main()
 		else if (cmd == "tsnprobe") { size_t n; is >> n; run_tsn(n, "", -1, true); }
 		else if (cmd == "tsn") { size_t n; std::string shape; long j; is >> n >> shape >> j; run_tsn(n, shape, j, false); }
 		else if (cmd == "growa") { size_t n; long c; is >> cat >> n >> c; if (cat == "ntm") run_growa<kit::ElemNtm>(n, c); else run_growa<kit::ElemCpo>(n, c); }
+		else if (cmd == "pc")
+		{
+			std::string cfg, sc; long f; is >> cfg >> sc >> f;
+			if (cfg == "2.0") run_pc<2, 0>(sc, f); else if (cfg == "4.3") run_pc<4, 3>(sc, f); else if (cfg == "3.2") run_pc<3, 2>(sc, f); else run_pc<8, 16>(sc, f);
+		}
+		else if (cmd == "migv") { size_t n; long k; is >> n >> k; run_migv(n, k); }
 		else if (cmd == "sa2") { size_t n; long k; is >> n >> k; run_sa2(n, k); }
 		else if (cmd == "sa") { size_t n; long c; is >> n >> c; run_sa(n, c); }
 		else if (cmd == "growprobe") { size_t n; is >> cat >> n; if (cat == "ntm") run_grow<kit::ElemNtm>("", n, -1, true); else run_grow<kit::ElemCpo>("", n, -1, true); }
@@ -426,6 +524,7 @@ int main()
 #endif
 		if (false) {}
 #if !defined(C03_TIE_PART) || C03_TIE_PART == 2
+		else if (cmd == "dtc") { std::string sc; is >> sc; run_dtc(sc); }
 		else if (cmd == "dt") { size_t n; long c; is >> n >> c; run_dt(n, c); }
 		else if (cmd == "hmm") { size_t n; long c; is >> n >> c; run_hmm(n, c); }
 #endif
